@@ -55,6 +55,7 @@ static sess_t S[NSESS];
 static int has_pc = 0, cur_curve = -1;
 static rsa_t rsa_pub, rsa_prv;
 static int have_rsa = 0;
+static int s_cur_sid = 0;
 static bn_t ph_pub;
 static phpe_t ph_prv;
 static int have_ph = 0;
@@ -604,6 +605,40 @@ static int sch_ecss(sess_t *s) {
 }
 
 /* ---- RSA signature: opt[0]=hash mode ---- */
+/* A dishonest holder of the private key (signature) or a sender that builds its own encoding (encryption)
+ * produces a value whose *encoded message* differs from a well-formed one in one bit: out = (EM ^ bit)^x mod n,
+ * where EM = in^y mod n.  Bits are biased to the places an encoding check looks at: the leading bits, the hash
+ * field and its last byte, the trailer. */
+static size_t rsa_encflip(uint8_t *out, const uint8_t *in, size_t in_len, const bn_t open_exp, const bn_t close_exp, fault_t *f) {
+	bn_t m, t;
+	const bn_st *n = rsa_pub->crt->n;
+	size_t nbits = bn_bits(n), k = RLC_CEIL(nbits, 8), bit;
+	bn_null(m); bn_null(t);
+	bn_new(m); bn_new(t);
+	bn_read_bin(t, in, in_len);
+	bn_mxp(m, t, open_exp, n);
+	switch (f->b % 6) {
+		case 0: bit = (size_t)f->a % (nbits - 1); break;
+		case 1: bit = nbits - 1 - ((size_t)f->a % 10); break;
+		case 2: bit = 8 * (1 + ((size_t)f->a % 33)) + (((size_t)f->a / 64) % 8); break;
+		case 3: bit = 8 + ((size_t)f->a % 8); break;
+		case 4: bit = (size_t)f->a % 8; break;
+		default: bit = 8 * (k - 1 - ((size_t)f->a % 40)) + (((size_t)f->a / 64) % 8); break;
+	}
+	if (bit >= nbits) bit = nbits - 2;
+	bn_set_bit(m, bit, !bn_get_bit(m, bit));
+	if (bn_cmp(m, n) != RLC_LT) {
+		bn_set_bit(m, bit, !bn_get_bit(m, bit));
+		bit = 8 + ((size_t)f->a % 8);
+		bn_set_bit(m, bit, !bn_get_bit(m, bit));
+	}
+	bn_mxp(t, m, close_exp, n);
+	bn_write_bin(out, k, t);
+	tr_printf("NOTE %d encoding-bit-flipped bit=%zu of=%zu\n", s_cur_sid, bit, nbits);
+	bn_free(m); bn_free(t);
+	return k;
+}
+
 static int sch_rsasig(sess_t *s) {
 	switch (s->phase) {
 		case 0: {
@@ -627,6 +662,11 @@ static int sch_rsasig(sess_t *s) {
 				s->blen[1] = bn_size_bin(s->b[0]);
 				bn_write_bin(s->buf[1], s->blen[1], s->b[0]);
 				tr_printf("MSG %d sig bytes kind=v_addmod orig=", s->sid);
+				tr_hex(s->buf[0], s->blen[0]); tr_str(" sent="); tr_hex(s->buf[1], s->blen[1]); tr_str(" dec=ok\n");
+			} else if (f && !strcmp(f->kind, "v_encflip")) {
+				s_cur_sid = s->sid;
+				s->blen[1] = rsa_encflip(s->buf[1], s->buf[0], s->blen[0], rsa_pub->e, rsa_prv->d, f);
+				tr_printf("MSG %d sig bytes kind=v_encflip orig=", s->sid);
 				tr_hex(s->buf[0], s->blen[0]); tr_str(" sent="); tr_hex(s->buf[1], s->blen[1]); tr_str(" dec=ok\n");
 			} else {
 				s->blen[1] = xmit_bytes(s, "sig", s->buf[1], s->buf[0], s->blen[0]);
@@ -656,7 +696,17 @@ static int sch_rsaenc(sess_t *s) {
 			return 1;
 		}
 		case 1:
-			if (s->flag[0]) s->blen[1] = xmit_bytes(s, "ct", s->buf[1], s->buf[0], s->blen[0]);
+			if (s->flag[0]) {
+				fault_t *f = find_fault(s, "ct");
+				if (f && !strcmp(f->kind, "v_encflip")) {
+					s_cur_sid = s->sid;
+					s->blen[1] = rsa_encflip(s->buf[1], s->buf[0], s->blen[0], rsa_prv->d, rsa_pub->e, f);
+					tr_printf("MSG %d ct bytes kind=v_encflip orig=", s->sid);
+					tr_hex(s->buf[0], s->blen[0]); tr_str(" sent="); tr_hex(s->buf[1], s->blen[1]); tr_str(" dec=ok\n");
+				} else {
+					s->blen[1] = xmit_bytes(s, "ct", s->buf[1], s->buf[0], s->blen[0]);
+				}
+			}
 			return 1;
 		case 2:
 			if (s->flag[0]) {
